@@ -384,6 +384,13 @@ func c09(c *Ctx) {
 		r.Check(okShape, "C09.R6", "retyping helper "+shortName(cf)+" swaps only the type word", p.Pos(cf.Pos()), "Ptr and Flag copied from the original reflect.Value, Typ from the target type",
 			"the unsafe retyping helper no longer preserves the original value's data pointer and flag word ("+why+"): values stored directly in the interface word (pointer-shaped structs) are dereferenced once too often or lose addressability")
 	}
+	// R2: a supplied value is taken as it is or rejected — never coerced: reflect's Convert turns an int into a one-rune
+	// string, wraps negative numbers into unsigned ones and truncates silently; a value of another type is a mistake
+	for _, f := range argFns {
+		for _, cs := range callsTo(f, "(reflect.Value).Convert") {
+			r.Bad("C09.R2", "value coerced with reflect.Value.Convert in "+shortName(f), p.Pos(posOf(cs)), "the value converter coerces a supplied value to the declared type with reflect's Convert instead of rejecting a value of another type: int→string yields a one-rune string, signed↔unsigned wraps, wider→narrower truncates — the stub delivers (or the condition matches) a different value than the one written in the test")
+		}
+	}
 	// R4: conversion errors never dropped
 	n := checkErrorsUsed(p, r, "C09.R4", func(callee *ssa.Function) bool { return relPkg(callee) == "arg" }, nil)
 	r.Stat("arg_error_call_sites", n)
